@@ -18,6 +18,7 @@ type Obligation struct {
 	Kind    string   `json:"kind"`
 	Func    string   `json:"function"`
 	Pos     string   `json:"pos"`
+	Src     string   `json:"src,omitempty"`
 	Detail  string   `json:"detail,omitempty"`
 	Props   []string `json:"properties,omitempty"`
 	Status  string   `json:"status"` // discharged failed undecided vacuous
@@ -281,6 +282,7 @@ func (f *FuncVC) oblig(kind string, st *State, goal string, pos token.Pos, detai
 		Kind:   kind,
 		Func:   f.Key,
 		Pos:    f.G.P.posStr(pos),
+		Src:    f.G.P.lineText(pos),
 		Detail: detail,
 		goal:   implies(st.reach, goal),
 		at:     len(f.cmds),
@@ -291,6 +293,13 @@ func (f *FuncVC) oblig(kind string, st *State, goal string, pos token.Pos, detai
 		o.Props = f.C.Props
 	}
 	f.obls = append(f.obls, o)
+	// A checked obligation is available as a fact afterwards (assert-then-assume): if it fails it is reported,
+	// so nothing is lost, and later obligations need not re-derive it.
+	if strings.HasPrefix(kind, "panic") || strings.HasPrefix(kind, "overflow") || strings.HasPrefix(kind, "pre(") {
+		if goal != "false" {
+			f.emit("(assert " + implies(st.reach, goal) + ")")
+		}
+	}
 	return o
 }
 
@@ -685,7 +694,11 @@ func (f *FuncVC) zeroInit(st *State, l *Loc) {
 		key := "E." + sortKey(k, w)
 		arr := f.heapGet(st, key, elemArraySort(k, w))
 		z := f.zero(a.Elem())
-		f.heapSet(st, key, elemArraySort(k, w), "(store "+arr+" "+l.Ref+" ((as const (Array Int "+sortOf(k, w)+")) "+z.T+"))")
+		if strings.HasPrefix(l.Ref, "new.") {
+			f.assume("(= (select " + arr + " " + l.Ref + ") ((as const (Array Int " + sortOf(k, w) + ")) " + z.T + "))")
+		} else {
+			f.heapSet(st, key, elemArraySort(k, w), "(store "+arr+" "+l.Ref+" ((as const (Array Int "+sortOf(k, w)+")) "+z.T+"))")
+		}
 	default:
 		f.store(st, l, f.zero(l.Typ))
 	}
